@@ -154,7 +154,7 @@ def run_both(lines, go_env=None, go_bin=None, jobs=None):
         for j, idx in enumerate(range(k, len(lines), n)):
             go[idx] = gouts[k][j] if j < len(gouts[k]) else "MISSING"
             mo[idx] = mouts[k][j] if j < len(mouts[k]) else "MISSING"
-    return go, mo
+    return [canon(x) for x in go], [canon(x) for x in mo]
 
 
 _ERR_RET = re.compile(r"(^| \| )(recv|other) ((?:foreign)?!)")
